@@ -49,6 +49,14 @@ TRUSTED += [
     "Bingham is run on the caller's array as it comes: int64 / int32 / uint8 / float32, C / Fortran order, non-contiguous views (a "
     "float32 matrix with no noise returns eigh's float32 eigenvector: unit norm checked to 1e-6 there, 1e-9 otherwise)",
 ]
+TRUSTED += [
+    "numpy-typed bounds: besides int64 / float typed ones, NARROW integer scalars (uint8, int8, int16, uint16, int32, uint32) with values at / "
+    "near the type's limits are given as bounds to GeometricFolded, GeometricTruncated and the four Laplace-family mechanisms (epsilon finite "
+    "and inf, inputs inside / outside the domain and outside the type's range); the claims are those for the same bounds written as Python ints",
+    "Snapping on finite bounds whose width upper - lower overflows to inf (|bounds| in [9e307, 1.8e308], opposite signs) is not a configuration: "
+    "the ValueError refusal is counted (refused_configuration:Snapping:width-not-finite); if such bounds are accepted, a NaN output is reported under "
+    "its own signature C12:Snapping:infinite-width-accepted:nan (the open finding C12:Snapping:huge-finite-width:nan covers FINITE widths only)",
+]
 UNPROVED = [
     "double rounding: that the float fold (modulo step + reflections on doubles) stays in [lower, upper] and stops is "
     "observed on every run, the theorems fold_in_bounds / fold_terminates are over R; truncate, the rejection test, "
@@ -63,7 +71,9 @@ RULE = ("configurations: epsilon in {inf, 1, 0.1, 1e-4} u loguniform[1e-4,50], d
         "degenerate parameter; distinct by (mechanism, domain kind, input kind, output). Selection / looping samplers: uniform "
         "extremes at every draw position (index draw and every Bernoulli coin, gamma = 0 and integer gammas), zero-measure candidates "
         "(top / all but one, utility gaps up to 1e6 sens/eps, eps = inf, sens = 0), epsilon in [500, 1.7e308] for every mechanism; "
-        "LaplaceBoundedDomain with bounds and input of very different magnitudes and scripted noise landing on / a few ulps next to a bound")
+        "LaplaceBoundedDomain with bounds and input of very different magnitudes and scripted noise landing on / a few ulps next to a bound; "
+        "narrow numpy integer typed bounds (full type range, 50-99% of it, symmetric > half of it, a few units from a limit, zero width) for the "
+        "geometric and Laplace families; Snapping on finite bounds with a non-finite width (must be refused)")
 
 MECH = dp.mechanisms
 INF = math.inf
@@ -1122,6 +1132,78 @@ def gen_snap_overflow(r):
     return "Snapping", cfg, r.choice([0.5, lo, hi, 0.0, lo / 2, hi / 2, r.uniform(-1e3, 1e3)]), {"seed": r.randint(0, 2 ** 31 - 2)}
 
 
+NARROW_RANGE = {"uint8": (0, 2 ** 8 - 1), "int8": (-2 ** 7, 2 ** 7 - 1), "int16": (-2 ** 15, 2 ** 15 - 1), "uint16": (0, 2 ** 16 - 1),
+                "int32": (-2 ** 31, 2 ** 31 - 1), "uint32": (0, 2 ** 32 - 1)}
+
+
+def gen_narrow_np(r):
+    """bounds given as NARROW numpy integer scalars (np.uint8 / int8 / int16 / uint16 / int32 / uint32, e.g. arr.min(), arr.max() of an
+    image or an int16 array) with values at / near the type's limits, so that 2*width, lower - 2*width, 2*upper - value or
+    value - lower do not fit the type; inputs inside, at, outside the domain and outside the TYPE's range.  The mechanism must behave
+    exactly as with the same bounds written as Python ints (range, type, zero-noise identity / exact fold, no exception)"""
+    mech = r.choice(["GeometricFolded"] * 3 + ["GeometricTruncated"] * 2 + REAL_MECHS)
+    geo = mech in INT_MECHS
+    t = r.choice(["uint8", "uint8", "int8", "int16", "uint16", "int32", "uint32"])
+    tmin, tmax = NARROW_RANGE[t]
+    span = tmax - tmin
+    m = r.u01()
+    if m < 0.2:
+        lo, hi = tmin, tmax
+    elif m < 0.4:
+        lo, hi = tmin, tmin + span * r.randint(50, 99) // 100
+    elif m < 0.55:
+        lo, hi = tmin + span * r.randint(1, 50) // 100, tmax
+    elif m < 0.75:
+        c, h = (tmin + tmax + 1) // 2, span * r.randint(26, 49) // 100
+        lo, hi = c - h, c + h
+    elif m < 0.85:
+        z = max(tmin, 0)
+        lo, hi = z, z + (tmax - z) * r.randint(50, 99) // 100
+    elif m < 0.93:
+        if r.chance(0.5):
+            hi = tmax - r.randint(0, 3)
+            lo = hi - r.randint(1, 20)
+        else:
+            lo = tmin + r.randint(0, 3)
+            hi = lo + r.randint(1, 20)
+    else:
+        lo = hi = r.choice([tmin, tmax, tmin + span // 3])
+    w = hi - lo
+    value = int(r.choice([lo, hi, (lo + hi) // 2, lo + 3 * w // 4, r.randint(lo, hi), r.randint(lo, hi), hi + 50, hi + 100, lo - 3, lo - 60,
+                          hi + 3 * w + 7, lo - 2 * w - 1, hi + 2 * w + 1, hi + 1, lo - 1, tmax + 1, tmax + r.randint(1, 300), tmin - 1,
+                          tmin - r.randint(1, 300)]))
+    eps = r.choice([INF, INF, 1.0, 0.05, 1e-4, 0.5, r.loguniform(1e-4, 5.0)])
+    if geo:
+        sens = r.choice([1, 1, 1, 0, 2, max(1, w // 4)])
+    else:
+        sens = r.choice([1.0, 1.0, 0.0, 0.3, max(1.0, w / 4.0)])
+    types = {"lower": t, "upper": t, "value": None}
+    if r.chance(0.15):
+        types[r.choice(["lower", "upper"])] = None
+    if tmin <= value <= tmax and r.chance(0.3):
+        types["value"] = t
+    elif r.chance(0.2):
+        types["value"] = "int64"
+    elif not geo and r.chance(0.4):
+        value = float(value)
+    cfg = {"eps": eps, "sens": sens, "lower": lo, "upper": hi, "dk": "narrow-np", "np_types": types}
+    if not geo:
+        cfg["delta"] = 0.0
+    return mech, cfg, value, {"seed": r.randint(0, 2 ** 31 - 2)}
+
+
+def _narrow_fixed():
+    out = []
+    for mech in INT_MECHS:
+        for t, lo, hi in (("uint8", 0, 200), ("uint8", 0, 255), ("int8", -100, 100), ("int16", -20000, 20000), ("int32", 0, 2 ** 30 + 5),
+                          ("uint16", 0, 60000)):
+            for eps, sens in ((INF, 1), (1.0, 0), (0.05, 1)):
+                for value in (lo + 3 * (hi - lo) // 4, hi, hi + 100, lo - 60):
+                    out.append((mech, {"eps": eps, "sens": sens, "lower": lo, "upper": hi, "dk": "narrow-np",
+                                       "np_types": {"lower": t, "upper": t, "value": None}}, value, {"seed": 12345}))
+    return out
+
+
 def gen_snap_wide(r):
     w = r.choice([1e300, 1e306, 9e306, 1e307, 4e307, 8e307, 1.7e308 / 2])
     lo, hi = r.choice([(-w, w), (0.0, 2 * w if 2 * w < 1.7e308 else 1.7e308), (-w, 0.0)])
@@ -1154,6 +1236,15 @@ def s_bounded(ctx):
         cases.append(gen_snap_wide(rm))
     for _ in range(ctx.budget(1200, 50000) // 2):
         cases.append(gen_near_half(rm))
+    ro = ctx.fork("snap-width-overflow")
+    cases += [("Snapping", {"eps": 1.0, "sens": 1.0, "lower": lo_, "upper": hi_, "dk": "width-overflow"}, 0.5, {"seed": 0})
+              for lo_, hi_ in ((-1e308, 1e308), (-9e307, 9.5e307), (-1.7e308, 1.0e307))]
+    for _ in range(ctx.budget(1200, 50000) // 20):
+        cases.append(gen_snap_overflow(ro))
+    rn = ctx.fork("narrow-np")
+    cases += _narrow_fixed()
+    for _ in range(ctx.budget(1200, 50000) // 2):
+        cases.append(gen_narrow_np(rn))
     cases += [("GeometricFolded", {"eps": 1.0, "sens": 0, "lower": 0.7 - 0.2, "upper": 10.5, "dk": "nearhalf"}, 0, {"seed": 0}),
               ("GeometricFolded", {"eps": INF, "sens": 1, "lower": -10.5, "upper": -(0.7 - 0.2), "dk": "nearhalf"}, 0, {"seed": 0}),
               ("GeometricFolded", {"eps": 1.0, "sens": 1, "lower": 0.7 - 0.2, "upper": 10.5, "dk": "nearhalf"}, 1, {"uniforms": [0.2, 0.3]})]
